@@ -74,6 +74,53 @@ def check(run, replay=None):
             vlib.correspond(run, 'settle-blocking-' + fs, 'h_node', fs, 'NODE', bcases, settle_oracle, None, model_args=[fs], impl_only=True)
         if breplay:
             return
+    sreplay = bool(replay) and any(l.startswith('# family: claim-slow-driver-') for l in open(replay))
+    if sreplay or not replay:
+        # a CAN driver whose CANSendFrame() takes time (a full mailbox, wait_sent): the 250 ms in which a device sends nothing but claims count
+        # from the moment the claim has been handed over, not from the moment the library decided to claim.  The model's driver takes no time,
+        # so this family is judged by the property oracle only (seed C04-20)
+        import random
+        from nodesim import parse_result
+        r = random.Random(run.seed * 7919 + 412)
+        scases = []
+        if sreplay:
+            scases = cases
+        else:
+            for txms in ([40, 10, 100] if run.tier == 'quick' else [1, 5, 10, 40, 100, 200, 249]):
+                for mode in (1, 2):
+                    for _ in range(2 if run.tier == 'quick' else 6):
+                        ops = []
+                        for _k in range(r.randint(1, 3)):
+                            ops += ['C 0', 'T %d' % r.choice([250 - txms // 2, 249 - 1, 230, 250 - 1, 200, 100, 250 + txms + 5, 251 + txms]), 'S 0 6 127250 15 255 0 0102030405060708', 'T 300', 'P']
+                        scases.append('NODE mode=%d ndev=1 src=%d q=40 slots=5 t0=%d txms=%d | %s' % (mode, r.choice([22, 100]), r.choice([5000, 4294967000, 10 ** 12]), txms, ' ; '.join(ops)))
+
+        def slow_oracle(case, res):
+            if res.startswith('crash') or res.startswith('oob'):
+                return 'memory:' + res
+            head, opss = case.split('|', 1)
+            kv = dict(x.split('=', 1) for x in head.split()[1:] if '=' in x)
+            d = int(kv['txms'])
+            ops = [o.split() for o in opss.split(';')]
+            per_op, _st = parse_result(res)
+            now, handed = 0, None          # handed: the time at which the last address claim of device 0 had been handed to the driver
+            for k, (o, evs) in enumerate(zip(ops, per_op)):
+                if o and o[0] == 'T':
+                    now += int(o[1])
+                start = now
+                for e in evs:
+                    if e[0] == 'tx':
+                        now += d
+                        if ((e[1] >> 8) & 0x1ff00) == 60928:
+                            handed = now
+                        elif handed is not None and start - handed < 249:
+                            return 'claim-slow-driver:op %d (%s): frame %x handed to the driver %d ms after the address claim had been handed over (the claim is pending for 250 ms)' % (k, ' '.join(o)[:30], e[1], start - handed)
+                    elif e[0] == 'res' and e[1] and o and o[0] == 'S' and handed is not None and start - handed < 249:
+                        return 'claim-slow-driver:op %d: application send accepted %d ms after the address claim had been handed over' % (k, start - handed)
+            return None
+        for fs in ('w64', 'w32'):
+            vlib.correspond(run, 'claim-slow-driver-' + fs, 'h_node', fs, 'NODE', scases, slow_oracle, None, model_args=[fs], impl_only=True)
+        if sreplay:
+            return
     st = {}
     CH = 4000       # the 64-bit harness runs all cases of a batch in one process and never frees a node: keep batches moderate
     for fs in ('w64', 'w32'):
